@@ -36,6 +36,9 @@ pub struct Cfg {
     pub chunk: Chunk,
     pub short_read: bool,
     pub read_pending_despite_data: bool,
+    /// Every transport read future returns `Pending` on its first poll (waking itself), whether or
+    /// not data is queued: a cooperative-yield transport (what tokio's budget does under load).
+    pub read_yields_first: bool,
     pub spurious_poll: bool,
     pub accept_pending_despite_backlog: bool,
     pub stream_pending_despite_item: bool,
@@ -51,6 +54,7 @@ impl Cfg {
             chunk: Chunk::Whole,
             short_read: false,
             read_pending_despite_data: false,
+            read_yields_first: false,
             spurious_poll: false,
             accept_pending_despite_backlog: false,
             stream_pending_despite_item: false,
@@ -74,6 +78,7 @@ impl Cfg {
             chunk,
             short_read: t.draw(3) == 2,
             read_pending_despite_data: t.draw(4) == 3,
+            read_yields_first: t.draw(6) == 5,
             spurious_poll: t.draw(4) == 3,
             accept_pending_despite_backlog: t.draw(4) == 3,
             stream_pending_despite_item: t.draw(4) == 3,
@@ -155,6 +160,15 @@ pub struct Pipe {
     /// A read filled its window since the last confirmation: the reader is about to grow its
     /// buffer (or has), possibly moving it; held data must not be looked at until re-confirmed.
     pub maybe_grown: bool,
+    /// A read never returns bytes beyond the first terminator it meets (a legal short read): the
+    /// reader then never holds a second buffered message.
+    pub read_cap_frame: bool,
+    /// Bytes (frames plus terminators) the application has been handed as results so far; kept
+    /// up to date by scenarios that check the memory bound.
+    pub consumed_by_app: usize,
+    /// Largest value of (bytes read so far - consumed_by_app + size of the window handed to a
+    /// read): a lower bound on the size the reader's buffer has reached.
+    pub max_unconsumed_plus_window: usize,
 }
 
 #[derive(Debug)]
@@ -277,6 +291,9 @@ pub struct W {
     pub live_pipes: Vec<usize>,
     /// Streams that may still produce environment events.
     pub live_streams: Vec<usize>,
+    /// What the service's reply streams report as `size_hint`: 0 = the default `(0, None)`,
+    /// 1 = the exact number of items still to come, 2 = "at least one" while items remain.
+    pub stream_size_hint: u8,
 }
 
 pub const STEP_CAP_PANIC: &str = "ZSIM_STEP_CAP";
@@ -330,6 +347,7 @@ impl W {
             tick_sites: BTreeMap::new(),
             live_pipes: Vec::new(),
             live_streams: Vec::new(),
+            stream_size_hint: 0,
         }))
     }
 
@@ -770,6 +788,7 @@ pub struct ReadFut<'a> {
     half: &'a mut SimReadHalf,
     buf: &'a mut [u8],
     polled_pending: bool,
+    yielded: bool,
     done: bool,
 }
 
@@ -789,8 +808,21 @@ impl Future for ReadFut<'_> {
             return Poll::Ready(Ok(0));
         }
         let window = this.buf.len();
+        if w.cfg.read_yields_first && !this.yielded {
+            this.yielded = true;
+            w.stat("buggify.read_yields_on_first_poll");
+            w.nontrivial = true;
+            w.ev("read.yield_first", p as u64, 0);
+            this.polled_pending = true;
+            cx.waker().wake_by_ref();
+            return Poll::Pending;
+        }
         {
             let pipe = &mut w.pipes[p];
+            let need = pipe.total_read.saturating_sub(pipe.consumed_by_app) + window;
+            if need > pipe.max_unconsumed_plus_window {
+                pipe.max_unconsumed_plus_window = need;
+            }
             let end = this.buf.as_ptr() as usize + window;
             if pipe.last_read_buf_end != end {
                 pipe.realloc_gen += 1;
@@ -875,7 +907,12 @@ impl Future for ReadFut<'_> {
                 cx.waker().wake_by_ref();
                 return Poll::Pending;
             }
-            let avail = w.pipes[p].readable.len().min(window);
+            let mut avail = w.pipes[p].readable.len().min(window);
+            if w.pipes[p].read_cap_frame {
+                if let Some(i) = w.pipes[p].readable.iter().take(avail).position(|b| *b == 0) {
+                    avail = i + 1;
+                }
+            }
             let n = if w.cfg.short_read && avail > 1 && w.tape.chance(1, 3) {
                 w.stat("buggify.short_read");
                 w.nontrivial = true;
@@ -945,7 +982,7 @@ impl Drop for ReadFut<'_> {
 
 impl ReadHalf for SimReadHalf {
     async fn read(&mut self, buf: &mut [u8]) -> zlink_core::Result<usize> {
-        ReadFut { half: self, buf, polled_pending: false, done: false }.await
+        ReadFut { half: self, buf, polled_pending: false, yielded: false, done: false }.await
     }
 }
 
